@@ -26,7 +26,7 @@ def keysets(tier):
     return out
 SEQS = [(10, 11, 12), (11, 10, 12, 30, 20), (20, 20, 11, 31, 21), (12, 11, 10, 31, 32, 11), (10, 30, 10, 11, 12)]
 def obligations(tier):
-    obs = [dict(id='rt.pfx_idx', entry='h_rt_pfx_idx', cls='P', serves=['C09', 'C20'], function='rt_pfx_of', timeout=300)]
+    obs = [dict(id='rt.pfx_idx', entry='h_rt_pfx_idx', cls='P', serves=['C09'], function='rt_pfx_of', timeout=300)]
     for n, (a, b, c, what) in enumerate(keysets(tier)):
         for m, seq in enumerate(SEQS):
             obs.append(dict(id='rt.ops.keys%d.seq%d' % (n, m), entry='h_rt_ops', cls='B', serves=['C09', 'C16'], unwind=18, leak=True, function='rt_find_or_insert__int_R',
